@@ -68,6 +68,7 @@ var allThorough = []Config{cfgDefault, cfgDebug, cfg386, cfgArm64}
 func runProp(c *Ctx, p *Prop) (code int) {
 	r := NewReport(p.ID, c.Tier, p.Level)
 	r.NotDec, r.Trusted, r.Assume = p.NotDec, p.Trusted, p.Assume
+	r.Assume = append(append([]string{}, r.Assume...), "the tree type-checks in the analysed configurations and go/ssa faithfully represents it", "preconditions stated in the property text (argument ranges, ascending inputs) hold for callers")
 	cfgs := p.Quick
 	if c.Tier == "thorough" && len(p.Thorough) > 0 {
 		cfgs = p.Thorough
